@@ -79,6 +79,11 @@ class C05(Prop):
                 L, Lp = self._Lpair(rng)
                 yield {'kind': 'shift', 'prior': prior, 'dc': dc, 'w': self._widths(rng), 'xi': self._state(rng, dc),
                        'x': self._state(rng, dc), 'L': L, 'Lp': Lp}
+                if dc and rng.random() < 0.8:
+                    # the same double-couple move, but from the state the real trans-dimensional sampler holds after an accepted jump from a
+                    # full tensor (a multi-step history: jump proposal built by the sampler, accepted, then an ordinary proposal)
+                    yield {'kind': 'shift', 'prior': prior, 'dc': True, 'w': self._widths(rng), 'xi': self._state(rng, True),
+                           'x': self._state(rng, True), 'L': L, 'Lp': Lp, 'after_jump_from': self._state(rng, False, 0.0)}
             elif k < 0.55:
                 ne = rng.randint(2, 3)
                 dcs = [rng.random() < 0.3 for _ in range(ne)]
@@ -132,6 +137,32 @@ class C05(Prop):
     def impl(self, case):
         np = self.np
         k = case['kind']
+        if k == 'shift' and 'after_jump_from' in case:
+            alg = self._alg('IterativeTransDMetropolisHastingsGaussianTape', sampling_prior=case['prior'])
+            alg.alpha = dict(case['w'], gamma_dc=0.2, delta_dc=0.2, proposal_normalisation=1.0)
+            mt = dict(case['after_jump_from'], kappa=case['xi']['kappa'], h=case['xi']['h'], sigma=case['xi']['sigma'])
+            alg.xi, alg.dc, alg.ln_likelihood_xi = mt, False, -1.0
+            jp = alg.dimension_jump_prob
+            alg.dimension_jump_prob = 1.0
+            try:
+                xdc = alg._new_sample_single()          # the sampler's own jump proposal (full tensor -> double-couple)
+            finally:
+                alg.dimension_jump_prob = jp
+            alg.jump = False
+            # the jump is accepted: the proposal becomes the current state, the chain is now double-couple
+            alg.xi, alg.dc, alg.ln_likelihood_xi = xdc, True, case['L']
+            x = dict(case['x'])
+            res = {'q_fwd': float(alg.transition_pdf(x, alg.xi)), 'q_bwd': float(alg.transition_pdf(alg.xi, x)),
+                   'pi_xi': float(alg.prior({kk: vv for kk, vv in alg.xi.items() if kk in ('gamma', 'delta', 'kappa', 'h', 'sigma')})), 'pi_x': float(alg.prior(x)),
+                   'a_fwd': float(alg.acceptance(dict(x), case['Lp']))}
+            keep = dict(alg.xi)
+            pars = {kk: vv for kk, vv in keep.items() if kk in ('gamma', 'delta', 'kappa', 'h', 'sigma')}
+            res['q_fwd_params'] = float(alg.transition_pdf(x, pars))
+            res['q_bwd_params'] = float(alg.transition_pdf(pars, x))
+            alg.xi, alg.ln_likelihood_xi = dict(x), case['Lp']
+            res['a_bwd'] = float(alg.acceptance(keep, case['L']))
+            alg.dc = False
+            return res
         if k == 'shift':
             alg = self._alg('IterativeMetropolisHastingsGaussianTape', sampling_prior=case['prior'], dc=case['dc'])
             return self._shift_vals(alg, case['w'], case['dc'], case['xi'], case['x'], case['L'], case['Lp'])
@@ -384,8 +415,11 @@ class C05(Prop):
                 out.append(('zero-likelihood', 'zero-likelihood proposal has acceptance %r' % impl['a_fwd'], None))
             if case['L'] == NEG_INF and case['Lp'] != NEG_INF and impl['a_fwd'] != 1:
                 out.append(('zero-start', 'chain on a zero-likelihood state accepts with probability %r' % impl['a_fwd'], None))
-            balance(impl['pi_xi'], case['L'], impl['q_fwd'], impl['a_fwd'], impl['pi_x'], case['Lp'], impl['q_bwd'], impl['a_bwd'],
-                    'shift' if k == 'shift' else 'joint shift')
+            # q is the density of the proposal actually made: a function of the source parameters of the two states only (not of what the
+            # sampler's state dictionary happens to carry along from an earlier jump)
+            balance(impl['pi_xi'], case['L'], impl.get('q_fwd_params', impl['q_fwd']), impl['a_fwd'], impl['pi_x'], case['Lp'],
+                    impl.get('q_bwd_params', impl['q_bwd']), impl['a_bwd'],
+                    ('shift from the state held after an accepted model jump' if 'after_jump_from' in case else 'shift') if k == 'shift' else 'joint shift')
         elif k == 'jump':
             if case['Lp'] == NEG_INF and impl['a_up'] != 0:
                 out.append(('zero-likelihood', 'zero-likelihood jump proposal has acceptance %r' % impl['a_up'], None))
